@@ -275,6 +275,46 @@ theorem C05_complete (v : Verifier) (g : Option Sig) (gd : Digest) (env : Option
         simp only [hfin, if_true]
         exact ⟨st.1, rfl⟩
 
+theorem filter_length_mono {α} (l : List α) (p q : α → Bool) (h : ∀ a, p a = true → q a = true) :
+    (l.filter p).length ≤ (l.filter q).length := by
+  induction l with
+  | nil => simp
+  | cons a l ih =>
+    simp only [List.filter_cons]
+    cases hp : p a with
+    | true => simp only [h a hp, if_true, List.length_cons]; omega
+    | false =>
+      cases hq : q a with
+      | true => simp only [if_true, List.length_cons, Bool.false_eq_true, if_false]; omega
+      | false => simpa using ih
+
+/-- **A signature on the Git object never hurts** (key-disjoint principals): if a rule is satisfied
+by the envelope alone, it is satisfied whatever signature the Git object carries — by a principal
+of the rule, by an outsider, over other content, or none.  This is the step from "the mergeability
+check needs no further signature" to "the recorded merge verifies whoever records it" (C19) at the
+level of one rule. -/
+theorem C05_git_signature_monotone (v : Verifier) (gd : Digest) (env : Option Envelope) (S : List PId)
+    (hx : v.exhaustive = false) (hd : DisjointKeys v.principals)
+    (hne : ∀ e, env = some e → e.sigs ≠ [])
+    (h : v.verify none gd env = .ok S) (g : Option Sig) :
+    ∃ S', v.verify g gd env = .ok S' := by
+  obtain ⟨hth, _, hlen, hnd, f, pg, hcred, _⟩ := C05_sound v none gd env S hx h
+  -- every credited principal signed the envelope
+  have hsub : ∀ x ∈ S, x ∈ (v.principals.filter (envSignedB env)).map (·.id) := by
+    intro p hp
+    obtain ⟨P, hP, hid, hk, hval⟩ := hcred p hp
+    rcases hval with ⟨_, s, hs, _⟩ | ⟨e, s, he, hs, hok⟩
+    · cases hs
+    · refine List.mem_map.mpr ⟨P, List.mem_filter.mpr ⟨hP, ?_⟩, hid⟩
+      subst he
+      simp only [envSignedB]
+      exact (signedB_iff e P).mpr ⟨f p, hk, s, hs, hok⟩
+  have h1 := nodup_subset_length _ _ hnd hsub
+  simp only [List.length_map] at h1
+  have h2 := filter_length_mono v.principals (envSignedB env)
+    (fun P => gitSignedB g gd P || envSignedB env P) (fun a ha => by simp [ha])
+  exact C05_complete v g gd env hx hd hne hth (by omega)
+
 /-- executable form of `DisjointKeys` -/
 def disjointKeysB (ps : List Principal) : Bool :=
   decide (ps.map (·.id)).Nodup &&
